@@ -1,3 +1,4 @@
+import re
 from shexer.core.profiling.class_profiler import RDF_TYPE_STR
 from shexer.model.shape import STARTING_CHAR_FOR_SHAPE_NAME
 from rdflib import Graph, Namespace, URIRef, RDF, BNode, XSD, Literal
@@ -12,6 +13,8 @@ _EXPECTED_SHAPE_BEGINING = STARTING_CHAR_FOR_SHAPE_NAME + "<"
 _EXPECTED_SHAPE_ENDING = ">"
 
 _SHACL_NAMESPACE = "http://www.w3.org/ns/shacl#"
+
+_ABSOLUTE_IRI_PATTERN = re.compile("^[A-Za-z][A-Za-z0-9+.-]*:")
 
 _SHACL_PRIORITY_PREFIXES = ["sh", "shacl", "sha"]
 
@@ -222,7 +225,7 @@ class ShaclSerializer(object):
     def _generate_r_uri_for_str_uri(self, property_str):
         if property_str.startswith("<") and property_str.endswith(">"):
             return URIRef(property_str[1:-1])
-        elif property_str.startswith("http://") or property_str.startswith("https://"):
+        elif _ABSOLUTE_IRI_PATTERN.match(property_str):  # any scheme (http:, https:, urn:, mailto:, ftp:...)
             return URIRef(property_str)
         raise ValueError("Having troubles recognizing this URI", property_str, ". "
                         "Is it well-formed? If you think so, add a GitHub issue. ")
